@@ -384,7 +384,90 @@ func (p *Prog) Callees(c ssa.CallInstruction) []*ssa.Function {
 		}
 		return out
 	}
-	return nil
+	if _, isB := cc.Value.(*ssa.Builtin); isB {
+		return nil
+	}
+	return p.dynCallees(c)
+}
+
+var dynCalleeCache = map[ssa.CallInstruction][]*ssa.Function{}
+
+// dynCallees: a call of a function value (literal held in a variable, func-typed parameter or field, method value): resolved
+// in the function's own context where possible; otherwise every function of the module with that signature whose value is
+// taken somewhere (conservative: used for reachability and effect enumeration).
+func (p *Prog) dynCallees(c ssa.CallInstruction) []*ssa.Function {
+	if r, ok := dynCalleeCache[c]; ok {
+		return r
+	}
+	dynCalleeCache[c] = nil
+	cc := c.Common()
+	var out []*ssa.Function
+	seen := map[*ssa.Function]bool{}
+	if ts := p.Env(c.Parent()).funcTargets(cc.Value, 0); ts != nil {
+		for _, t := range ts {
+			if !seen[t.fn] {
+				seen[t.fn] = true
+				out = append(out, t.fn)
+			}
+		}
+		dynCalleeCache[c] = out
+		return out
+	}
+	sig, ok := cc.Value.Type().Underlying().(*types.Signature)
+	if !ok {
+		return nil
+	}
+	for _, fn := range p.addressTaken() {
+		real := fn
+		if fn.Synthetic != "" {
+			real = unwrapSynthetic(fn)
+		}
+		if seen[real] || len(real.Blocks) == 0 {
+			continue
+		}
+		// compare without the receiver (bound methods) for synthetic wrappers, the literal's own signature otherwise
+		if types.Identical(fn.Signature.Params(), sig.Params()) && types.Identical(fn.Signature.Results(), sig.Results()) {
+			seen[real] = true
+			out = append(out, real)
+		}
+	}
+	dynCalleeCache[c] = out
+	return out
+}
+
+var addressTakenFns []*ssa.Function
+var addressTakenDone bool
+
+// addressTaken: functions of the module used as values (function literals, method values, named functions passed around).
+func (p *Prog) addressTaken() []*ssa.Function {
+	if addressTakenDone {
+		return addressTakenFns
+	}
+	addressTakenDone = true
+	seen := map[*ssa.Function]bool{}
+	for _, fn := range p.Funcs {
+		for _, b := range fn.Blocks {
+			for _, in := range b.Instrs {
+				if mc, ok := in.(*ssa.MakeClosure); ok {
+					if f, ok := mc.Fn.(*ssa.Function); ok && !seen[f] {
+						seen[f] = true
+						addressTakenFns = append(addressTakenFns, f)
+					}
+				}
+				var callValue ssa.Value
+				if ci, ok := in.(ssa.CallInstruction); ok {
+					callValue = ci.Common().Value
+				}
+				for _, op := range in.Operands(nil) {
+					if f, ok := (*op).(*ssa.Function); ok && *op != callValue && !seen[f] && f.Pkg != nil && strings.HasPrefix(f.Pkg.Pkg.Path(), modPath) {
+						seen[f] = true
+						addressTakenFns = append(addressTakenFns, f)
+					}
+				}
+			}
+		}
+	}
+	return addressTakenFns
 }
 
 // InvokeName returns "Iface.Method" for an interface invocation ("" otherwise); Iface is the named interface type.
